@@ -61,6 +61,7 @@ def build_inputs(tier):
             base.append(g[0])
     nonascii = ["x = 'é'\n", "ñ = 1\n# комментарий\ny = ñ\n", "s = '日本語' + 'ü'\nprint(s)\n", "x = 'é' +\n", "def ü(): return 'ß' ß\n", "x = ('é',\n\n 'ü') 3\n", "$(echo ñandú)\n", "f'é{x}ü'\n"]
     base += nonascii
+    base += ["s = 'a\\\nb'\n", 't = "x \\\n y" + 1\n', "u = 'a\\\nb' 2\n", "v = f'a{w}\\\nb'\n", "x = 1 + \\\n  2\n", "y = (1,\n  2) 3\n"]
     for s in base:
         files.append(("valid", s))
         files.append(("crlf", mutate.crlf(s)))
@@ -103,15 +104,9 @@ def compare(a, b):
     return None
 
 
-def run(rep, tier, pool, variants=("shipped",)):
-    rep.rule = (
-        "file contents: valid and damaged Python/xonsh programs, the C11 invalid table, ASCII and non-ASCII (identifiers, strings, comments), "
-        "LF/CRLF, with/without final newline, multi-line strings, errors at ENDMARKER; each written to a file and parsed with parse_file and "
-        "parse_string in child interpreters under 4 environments (C.UTF-8; C; POSIX with -X utf8; ISO-8859-1 locale); oracle: equality of tree "
-        "dump with positions, or of exception class/msg/line/column/end/text; the UTF-8 environment result is also compared across environments; "
-        "distinct by (environment, content)"
-    )
-    files = build_inputs(tier)
+def run_children(files, envs):
+    """{environment name: [[file name, parse_file outcome, parse_string outcome], ...]} from one child interpreter per
+    environment; `files` is a list of (kind, content)."""
     tmp = Path(tempfile.mkdtemp(prefix="xv.c12.", dir="/var/tmp"))
     try:
         for i, (kind, s) in enumerate(files):
@@ -120,7 +115,7 @@ def run(rep, tier, pool, variants=("shipped",)):
         child.write_text(CHILD)
         results = {}
         procs = []
-        for name, env in ENVS:
+        for name, env in envs:
             e = {k: v for k, v in os.environ.items() if not k.startswith(("LC_", "LANG", "PYTHONUTF8", "PYTHONIOENCODING"))}
             e.update(env)
             e["XV_REPO"] = str(REPO)
@@ -130,6 +125,24 @@ def run(rep, tier, pool, variants=("shipped",)):
             if p.returncode != 0:
                 raise RuntimeError(f"child under {name} failed: {err.decode(errors='replace')[-400:]}")
             results[name] = json.loads(out)
+        return results
+    finally:
+        import shutil
+
+        shutil.rmtree(tmp, ignore_errors=True)
+
+
+def run(rep, tier, pool, variants=("shipped",)):
+    rep.rule = (
+        "file contents: valid and damaged Python/xonsh programs, the C11 invalid table, ASCII and non-ASCII (identifiers, strings, comments), "
+        "LF/CRLF, with/without final newline, multi-line strings, errors at ENDMARKER; each written to a file and parsed with parse_file and "
+        "parse_string in child interpreters under 4 environments (C.UTF-8; C; POSIX with -X utf8; ISO-8859-1 locale); oracle: equality of tree "
+        "dump with positions, or of exception class/msg/line/column/end/text; the UTF-8 environment result is also compared across environments; "
+        "distinct by (environment, content)"
+    )
+    files = build_inputs(tier)
+    results = run_children(files, ENVS)
+    if True:
         base = {r[0]: r for r in results["utf8"]}
         for name, res in results.items():
             for fname, a, b in res:
@@ -149,10 +162,6 @@ def run(rep, tier, pool, variants=("shipped",)):
                         rep.known(fid, f"{d[:110]} on {short(s, 30)}")
                         continue
                     rep.violation(f"C12 [{name}] {d} on {short(s, 50)}", {"property": "C12", "input": s, "environment": dict(ENVS)[name], "file_outcome": a, "string_outcome": b})
-    finally:
-        import shutil
-
-        shutil.rmtree(tmp, ignore_errors=True)
 
 
 def classify(s, d, a, b, env):
